@@ -2,6 +2,8 @@
 
 mod exact;
 mod ops;
+mod poolev;
+mod ssx;
 mod props;
 mod report;
 mod world;
